@@ -167,9 +167,9 @@ Analysis(D, S) ==
         unspec ==
                (IF \E i, j \in conn : i # j /\ {D.stmts[i].a, D.stmts[i].b} = {D.stmts[j].a, D.stmts[j].b}
                 THEN {"DupConn"} ELSE {})
-          \* a non-writer member that shares bits with the WRITER of its own net (the net
-          \* feeds a signal back into itself), or overlapping members of a net without writer
-          \cup (IF \E N \in nets \ rov : \E u, v \in N : u # v /\ OBits(D, u) \cap OBits(D, v) # {}
+          \* a non-writer member that shares bits with the WRITER of its own net: the net feeds
+          \* a signal back into itself (one driver per bit, but no loop of connections either)
+          \cup (IF \E N \in nets \ rov : wrt[N] # 0 /\ \E u, v \in N : u # v /\ OBits(D, u) \cap OBits(D, v) # {}
                 THEN {"NetSelfOverlap"} ELSE {})
     IN  [nets |-> nets, writer |-> wrt, cand |-> FC, rov |-> rov, mwwhy |-> mwwhy,
          defects |-> defects, unspec |-> unspec]
